@@ -346,6 +346,17 @@ def qfrac(s):
     a, b = s.split("/")
     return Fraction(int(a, 16), int(b, 16))
 
+def is_double(p):
+    """is the rational p exactly representable as a (normal, finite) IEEE double?"""
+    try: f = float(p)
+    except OverflowError: return False
+    return math.isfinite(f) and Fraction(f) == p
+
+def EXACT_ULPS(n):
+    """bound (in ulps of the implementation's value) for a non-representable model value in the exact regime: m_bdiag = y'y / y's,
+    2 inner products of n terms (2n - 1 operations each) and 1 division, half an ulp each, rounded up"""
+    return 2 * n + 1
+
 def compare(case, mo, io, stats):
     """None if the model's lines agree with the implementation's, else a message.  Exact while the harness reports ex=1."""
     stepped = False
@@ -370,9 +381,20 @@ def compare(case, mo, io, stats):
             xb = fvec(db[k])
             if len(xa) != len(xb): return "line %d: %s has %d entries in the model, %d in the implementation" % (idx, k, len(xa), len(xb))
             if exact:
+                # exact regime: a model value that IS a double must be hit exactly.  A model value that is not representable
+                # (only m_bdiag = y'y / y's of L-BFGS gets here: it is not part of the harness' mantissa watch, every other
+                # number of such a line is a short dyadic) must be the rounded model value up to EXACT_ULPS(n) ulps: the two
+                # inner products (n products + n - 1 additions each, exact for the short dyadic operands of this regime but
+                # bounded as if each rounded) and the one division of that path
+                nd = max(1, len(da.get("pt", "").split(",")))
                 for p, q in zip(xa, xb):
-                    if math.isnan(q) or math.isinf(q) or Fraction(q) != p:
-                        return "line %d `%s` (exact regime): %s model %s = %r, implementation %r" % (idx, l[:20], k, p, float(p), q)
+                    if math.isnan(q) or math.isinf(q): return "line %d `%s` (exact regime): %s model %s, implementation %r" % (idx, l[:20], k, p, q)
+                    if is_double(p):
+                        if Fraction(q) != p: return "line %d `%s` (exact regime): %s model %s = %r, implementation %r" % (idx, l[:20], k, p, float(p), q)
+                    else:
+                        if k != "bdiag" or abs(Fraction(q) - p) > EXACT_ULPS(nd) * Fraction(math.ulp(q)):
+                            return "line %d `%s` (exact regime): %s model %s = %r is not a double, implementation %r differs by more than %d ulps" % (idx, l[:20], k, p, float(p), q, EXACT_ULPS(nd))
+                        stats["exact_regime_rounded_values"] = stats.get("exact_regime_rounded_values", 0) + 1
             else:
                 sc = max([1.0] + [abs(float(p)) for p in xa])
                 for p, q in zip(xa, xb):
@@ -691,6 +713,7 @@ def main():
     ck = Check(PID)
     ck.trusted = DEFAULT_TRUSTED + [
         "harness/c10_opt.cpp: objective functions (quadratic, Rosenbrock, box variants via BoxConstraintHandler), a 4-line subclass of AbstractLineSearchOptimizer with direction -gradient, read access to protected members through pointers to members",
+        "exact regime, model value not representable as a double (L-BFGS m_bdiag only): implementation within 2n+1 ulps of the exact rational instead of equality (see coverage.exact_regime_values_not_representable_as_double)",
         "exact-regime detection: FE_INEXACT around every objective evaluation + at most 40 significant bits in every printed state number; the one always-inexact library operation (c1*t*gtd in the Armijo test, c1 = 1e-4) can only matter when the decrease equals 1e-4 of the linear prediction to 1e-16",
         "not modelled: the numerics of Dlinmin / WolfeCubic (interpolation, Brent and golden-section steps are an oracle replayed from the code's evaluation log)",
         "harness/c10_opt.cpp reads the private members of LBFGS / Adam / Rprop through explicit template instantiations (struct Rob) and prints them; tools/c10.py recomputes y = derivative - lastDerivative and s = point - lastPoint of an L-BFGS step with the same two double subtractions",
@@ -935,6 +958,8 @@ def main():
     ck.cov["samples"] = [cases[0][:4], cases[-1][:4]] if cases else []
     ck.cov["optimizer_steps"] = steps
     ck.cov["state_lines_compared_exactly"] = stats["exact"]; ck.cov["state_lines_compared_1e-9"] = stats["tol"]
+    ck.cov["exact_regime_values_not_representable_as_double"] = {"count": stats.get("exact_regime_rounded_values", 0),
+        "rule": "only L-BFGS m_bdiag = y'y / y's; the implementation's double must lie within 2n+1 ulps (n = dimension: 2 inner products of n terms + 1 division, half an ulp per operation, rounded up) of the exact rational; every model value that is a double is compared for equality"}
     ck.cov["comparisons_stopped_at_exact_minimiser"] = stats.get("stopped_at_minimiser", 0)
     ck.cov["comparisons_stopped_near_minimiser_inexact_regime"] = stats.get("stopped_near_minimiser", 0)
     ck.cov["classes"] = cls
